@@ -7,12 +7,13 @@ EXTENDS Code8b10bStream
 
 T == JsonDeserialize(IOEnv.TRACES)
 
-VARIABLES tid, l, envbad, stall, stall2
-vars == <<tid, l, envbad, stall, stall2, q, rd, hold, oprev, obs>>
+VARIABLES tid, l, envbad, stall, stall2,
+          dead    \* per clause: already violated in this trace (each clause reports once per trace)
+vars == <<tid, l, envbad, stall, stall2, dead, q, rd, hold, oprev, obs>>
 
 C == T[tid].cfg
 
-Init == /\ tid \in 1..Len(T) /\ l = 1 /\ envbad = FALSE /\ stall = 0 /\ stall2 = 0 /\ CInit
+Init == /\ tid \in 1..Len(T) /\ l = 1 /\ envbad = FALSE /\ stall = 0 /\ stall2 = 0 /\ dead = [o |-> FALSE, b |-> FALSE, h |-> FALSE, p |-> FALSE, d |-> FALSE] /\ CInit
 
 Next ==
   /\ l <= Len(T[tid].ev)
@@ -22,13 +23,15 @@ Next ==
         /\ CStep(C, iv, o)
         /\ stall'  = IF obs'.coop /\ ~obs'.srcfire THEN stall + 1 ELSE 0
         /\ stall2' = IF obs'.rdy /\ q' # <<>> /\ ~obs'.srcfire THEN stall2 + 1 ELSE 0
+  /\ dead' = [o |-> dead.o \/ ~obs.okorder, b |-> dead.b \/ ~obs.okbound, h |-> dead.h \/ ~obs.okhold,
+               p |-> dead.p \/ stall >= C.stallbound, d |-> dead.d \/ stall2 >= C.stallbound]
   /\ l' = l + 1 /\ tid' = tid
 
 EnvLegal == ~envbad                           \* harness obligation, not a property of the code
-ChainedInOrderT == obs.okorder
-BoundedT        == obs.okbound
-ValidHoldT      == obs.okhold
+ChainedInOrderT == dead.o \/ obs.okorder
+BoundedT        == dead.b \/ obs.okbound
+ValidHoldT      == dead.h \/ obs.okhold
 (* bounded forms of the liveness clauses for replayed lassos and long runs *)
-BoundedProgress == stall < C.stallbound
-BoundedDelivery == stall2 < C.stallbound
+BoundedProgress == dead.p \/ stall < C.stallbound
+BoundedDelivery == dead.d \/ stall2 < C.stallbound
 =============================================================================
